@@ -5,7 +5,7 @@ import io
 from vlib import irv
 
 
-N_WEIGHTS = {"quick": ((2, 3, 4, 5, 6), (1, 3, 5, 8, 3)), "thorough": ((2, 3, 4, 5, 6), (1, 2, 4, 8, 5))}
+N_WEIGHTS = {"quick": ((2, 3, 4, 5, 6, 7), (2, 6, 10, 16, 7, 1)), "thorough": ((2, 3, 4, 5, 6, 7, 8), (4, 8, 16, 32, 20, 4, 1))}
 
 
 def pick_n(rng, tier, n_min=2):
